@@ -127,7 +127,7 @@ Notified(s, o, x) == \* the records of this call that were announced to subscrib
 AuxAfter(s, o, x, a) ==
     LET w == Notified(s, o, x)
         wl == a.wlog \o w
-        quietbulk == o.op \in {"Purge", "PutMany", "Burst"} /\ x.res.err = "ok"
+        quietbulk == o.op \in {"Purge", "PutMany", "Burst", "FlushLater"} /\ x.res.err = "ok"
     IN [cached |-> IF CacheOn /\ o.via = "if" /\ o.i = cfg.cachei /\ o.k # 0 THEN a.cached \cup {o.k} ELSE a.cached,
         wlog |-> wl,
         from |-> IF o.op \in {"Subscribe", "Qsub"} /\ x.res.err = "ok" THEN [a.from EXCEPT ![o.slot] = Len(a.wlog)] ELSE a.from,
@@ -144,7 +144,7 @@ FeedExact(s, a) ==
 \* ---------------------------------------------------------------- the C03 table
 W == Full
 Paths == {"get", "getcached", "cachedwrite", "query", "sub", "push", "insert", "setabs", "setrel", "makesecret", "makecrown",
-          "delete", "purge", "cachedpurge", "putmany", "put", "putnew",
+          "delete", "purge", "cachedpurge", "putmany", "put", "putnew", "delayedwrite",
           "apiget", "apiquery", "apisub", "apiqsub", "apiupdate", "apicreate", "apiinsert", "apidelete"}
 ApiPath(p) == p \in {"apiget", "apiquery", "apisub", "apiqsub", "apiupdate", "apicreate", "apiinsert", "apidelete"}
 TQ(name, via, i, q, slot, T) == Op(name, via, i, 0, 0, FALSE, FALSE, q, T[q].p, T[q].c, slot, <<>>, "pass", <<>>, 0)
@@ -182,6 +182,12 @@ PathOps(path, i, sec, crown, T) ==
             [] path = "put" -> << KeyOp("Put", "if", i, k, 3, FALSE, FALSE), KeyOp("Put", "if", i, 4, 1, TRUE, TRUE),
                                   KeyOp("Get", "if", i, 4, 0, FALSE, FALSE), KeyOp("Put", "if", i, 4, 2, FALSE, FALSE) >>
             [] path = "putnew" -> << KeyOp("PutNew", "if", i, k, 3, FALSE, FALSE) >>
+            \* a write accepted into a delayed write cache while the key was free, a flagged record stored there by a
+            \* privileged interface meanwhile, then the flush
+            [] path = "delayedwrite" -> << KeyOp("PutLater", "if", i, 4, 1, FALSE, FALSE), KeyOp("Put", "if", W, 4, 2, sec, crown),
+                                           O0("FlushLater", "if", i), KeyOp("Get", "if", W, 4, 0, FALSE, FALSE),
+                                           KeyOp("Get", "if", i, 4, 0, FALSE, FALSE), KeyOp("PutLater", "if", i, 2, 3, FALSE, FALSE),
+                                           O0("FlushLater", "if", i), KeyOp("Get", "if", W, 2, 0, FALSE, FALSE) >>
             [] path = "apiget" -> << KeyOp("Get", "api", 1, k, 0, FALSE, FALSE), KeyOp("Get", "api", 1, 3, 0, FALSE, FALSE) >>
             [] path = "apiquery" -> << TQ("Query", "api", 1, 1, 0, T), TQ("Query", "api", 1, 2, 0, T) >>
             [] path = "apisub" -> << TQ("Subscribe", "api", 1, 1, 1, T), KeyOp("Put", "if", W, k, 3, sec, crown),
@@ -198,7 +204,7 @@ PathOps(path, i, sec, crown, T) ==
 
 TableRows == {<<path, i, fl>> : path \in Paths, i \in Ifaces, fl \in BOOLEAN \X BOOLEAN}
 RowOK(r) == ApiPath(r[1]) => r[2] = 1
-RowCfg(r, T) == [kind |-> IF r[1] = "push" THEN "runtime" ELSE IF r[1] \in {"purge", "cachedpurge", "putmany"} THEN "store" ELSE "any",
+RowCfg(r, T) == [kind |-> IF r[1] = "push" THEN "runtime" ELSE IF r[1] \in {"purge", "cachedpurge", "putmany", "delayedwrite"} THEN "store" ELSE "any",
                  api |-> ApiPath(r[1]),
                  cachei |-> IF r[1] \in {"getcached", "cachedwrite", "cachedpurge"} THEN r[2] ELSE 0,
                  queries |-> T,
